@@ -3,11 +3,10 @@ CONSTANTS
   MKind = "bytes"
   MEty = "u8"
   Prefixes <- PrefBases
-  OpNames = {"push", "pop", "clear", "clone", "insert", "remove", "set", "swap", "resize", "get", "append", "append_self", "split_at", "splice", "via_vec"}
+  OpNames = {"push", "pop", "clear", "insert", "remove", "set", "swap", "resize", "append", "append_self", "split_at", "splice"}
   MaxOps = 2
   NumSel <- NumSel_none
 SPECIFICATION GenSpec
 INVARIANT TypeInv
-INVARIANT ModelInv
 INVARIANT PrintLeaf
 CHECK_DEADLOCK FALSE
